@@ -64,7 +64,7 @@ theorem result_paths_accepted (x : String) (outs : List String) (hx : x ∈ outs
   simp [pluginAcceptsRelaxed, accepts, violations, path, seq, upToRunning, upToStarting, upToEnabling, start,
     deployStageEntry, enableStageEntry, enabledTrue, startStageEntry, runStageEntry, runResultOk, emit,
     transitionStageWithOutput, transitionRunningStage, completeStep, finishedStages, failedStages, reportedOutputs,
-    transitions, mentioned, noDup, afterComplete, isComplete, outputOk, declaredOutputs, Arca.Gen.pluginStages,
+    transitions, transitionsFrom, mentioned, noDup, afterComplete, isComplete, outputOk, declaredOutputs, Arca.Gen.pluginStages,
     stageIds, pluginEdges, edgesOf, pluginUndeclaredEdges, hx] <;> rfl
 
 theorem all_paths_accepted (outs : List String) : ∀ p ∈ pluginPaths outs, pluginAcceptsRelaxed outs p.2 = true := by
@@ -110,5 +110,14 @@ theorem disabled_mem (outs : List String) :
   unfold pluginPaths
   apply List.mem_append_left
   decide
+
+/-! ### foreach -/
+
+open Arca.Model.ForeachStep in
+theorem foreach_paths_accepted : ∀ p ∈ foreachPaths, foreachAcceptsRelaxed p.2 = true := by decide
+
+open Arca.Model.ForeachStep in
+theorem foreach_strict_rejects_closed_waiting_execute :
+    foreachAccepts (fpath [enterExecute, Arca.Model.ForeachStep.closedEarly "outputs" true]) = false := by decide
 
 end Arca.Proofs.PluginTraces
